@@ -118,6 +118,15 @@ pub fn setup(rng: &mut Rng, o: &CaseOpts, id: u64) -> Vec<String> {
             if rng.bool() { v.push(format!("sim srdef {} cc {}", hex16(a), rng.below(4))); }
             else { let k = rng.below(3); let rs: Vec<String> = (0..k).map(|_| rng.below(8).to_string()).collect(); v.push(format!("sim srdef {} pbr {}", hex16(a), if rs.is_empty() { "-".to_string() } else { rs.join(",") })); }
         }
+        // signatures registered for interrupt and exception handlers: the callee of such a frame is its vector-table
+        // entry x0100+v, and the frame's arguments are the ones described by the signature registered there
+        if o.prof == Prof::Frames && rng.bool() {
+            for _ in 0..1 + rng.below(3) {
+                let a = 0x0100 + *rng.pick(&[0x80u16, 0x81, 0x00, 0x01, 0x02, 0x25, 0xFF, 0x10]);
+                if rng.bool() { v.push(format!("sim srdef {} cc {}", hex16(a), 1 + rng.below(3))); }
+                else { let k = 1 + rng.below(2); let rs: Vec<String> = (0..k).map(|_| rng.below(8).to_string()).collect(); v.push(format!("sim srdef {} pbr {}", hex16(a), rs.join(","))); }
+            }
+        }
     }
     v
 }
